@@ -91,11 +91,14 @@ variant('b-initial-n-leak', ['C10'], 'rsocket/streams/stream_handler.py',
 # twins
 variant('t-ssreq-logging', ['C07', 'C10', 'C08', 'C09'], H + 'request_stream_requester.py',
         """        elif isinstance(frame, ErrorFrame):
+            self._terminated = True
             self._subscriber.on_error""", """        elif isinstance(frame, ErrorFrame):
             logger().debug('error frame on stream %s', self.stream_id)
+            self._terminated = True
             self._subscriber.on_error""", kind='twin')
 variant('t-ssreq-helper-extracted', ['C07', 'C10', 'C08', 'C09'], H + 'request_stream_requester.py',
         """        elif isinstance(frame, ErrorFrame):
+            self._terminated = True
             self._subscriber.on_error(error_frame_to_exception(frame))
             self._finish_stream()
 
@@ -103,6 +106,7 @@ variant('t-ssreq-helper-extracted', ['C07', 'C10', 'C08', 'C09'], H + 'request_s
             self._fail(error_frame_to_exception(frame))
 
     def _fail(self, exception):
+        self._terminated = True
         self._subscriber.on_error(exception)
         self._finish_stream()
 
@@ -181,19 +185,19 @@ variant('b-second-setup-on-lease', ['C08'], 'rsocket/rsocket_base.py',
 
 # ----------------------------------------------------------------------------------------------- C09
 variant('b-ssreq-cancel-twice', ['C09'], H + 'request_stream_requester.py',
-        """    def cancel(self):
+        """        self._terminated = True
         self.send_cancel()
         self._finish_stream()
-""", """    def cancel(self):
+""", """        self._terminated = True
         self.send_cancel()
         self._finish_stream()
         self.send_cancel()
 """, ('C09.a', 'RequestStreamRequester.cancel'))
 variant('b-ssreq-cancel-nofinish', ['C09', 'C10'], H + 'request_stream_requester.py',
-        """    def cancel(self):
+        """        self._terminated = True
         self.send_cancel()
         self._finish_stream()
-""", """    def cancel(self):
+""", """        self._terminated = True
         self.send_cancel()
 """, ('C', 'RequestStreamRequester.cancel'))
 variant('b-rrreq-cancel-after-terminal', ['C09'], H + 'request_response_requester.py',
@@ -2081,8 +2085,9 @@ variant('t-rx-publisher-adapter-built-first', ['C07'], 'rsocket/reactivex/back_p
 """, kind='twin')
 
 variant_multi('b-request-n-frame-kept-per-stream', ['C06', 'C05'], [
-    ('rsocket/handlers/request_stream_requester.py', "    def request(self, n: int):\n        self.send_request_n(n)",
-     """    def request(self, n: int):
+    ('rsocket/handlers/request_stream_requester.py', "            return\n\n        self.send_request_n(n)",
+     """            return
+
         if getattr(self, '_request_n_frame', None) is None:
             self._request_n_frame = to_request_n_frame(self.stream_id, n)
         self._request_n_frame.request_n = n
@@ -2519,12 +2524,12 @@ variant('t-error-code-through-a-local', ['C12', 'C02'], 'rsocket/frame.py',
 
 # C13.j a live stream's id is released only with a terminal frame
 variant('b-request-n-rejection-releases-a-live-id', ['C13', 'C10'], H + 'request_stream_requester.py',
-        "    def request(self, n: int):\n        self.send_request_n(n)\n",
-        "    def request(self, n: int):\n        if n <= 0:\n            self._finish_stream()\n            raise ValueError('Request N must be > 0')\n        self.send_request_n(n)\n",
+        "            return\n\n        self.send_request_n(n)\n",
+        "            return\n\n        if n <= 0:\n            self._finish_stream()\n            raise ValueError('Request N must be > 0')\n        self.send_request_n(n)\n",
         ('C13.j', 'RequestStreamRequester.request'))
 variant('t-request-n-rejection-cancels-the-stream', ['C13', 'C10', 'C08', 'C09'], H + 'request_stream_requester.py',
-        "    def request(self, n: int):\n        self.send_request_n(n)\n",
-        "    def request(self, n: int):\n        if n <= 0:\n            self.cancel()\n            raise ValueError('Request N must be > 0')\n        self.send_request_n(n)\n",
+        "            return\n\n        self.send_request_n(n)\n",
+        "            return\n\n        if n <= 0:\n            self.cancel()\n            raise ValueError('Request N must be > 0')\n        self.send_request_n(n)\n",
         kind='twin')
 
 # C09.e shared into C11: the drain of the close sequence settles each sent-future under the at-most-once guard
@@ -2602,3 +2607,95 @@ variant('b-composite-skips-entries-with-an-empty-body', ['C18'], 'rsocket/extens
         "            item_metadata = item.serialize()\n\n            item_serialized = b''\n",
         "            item_metadata = item.serialize()\n            if not item_metadata:\n                continue\n\n            item_serialized = b''\n",
         ('C18.d', 'CompositeMetadata.serialize'))
+
+# C01.o shared into C09: the subscription kept is the current one
+variant('b-default-subscriber-keeps-its-first-subscription', ['C09', 'C01'], 'reactivestreams/subscriber.py',
+        "    def on_subscribe(self, subscription: Subscription):\n        self.subscription = subscription\n",
+        "    def on_subscribe(self, subscription: Subscription):\n        if self.subscription is None:\n            self.subscription = subscription\n",
+        ('C01.o', 'DefaultSubscriber.on_subscribe'))
+
+# C20.p the adapters pass the delegate's failures on
+variant('b-rx-adapter-logs-a-rejecting-on-setup', ['C20', 'C16'], 'rsocket/rx_support/rx_handler_adapter.py',
+        "        await self.delegate.on_setup(data_encoding, metadata_encoding, payload)\n",
+        "        try:\n            await self.delegate.on_setup(data_encoding, metadata_encoding, payload)\n        except Exception:\n            pass\n",
+        ('C20.p', 'RxHandlerAdapter.on_setup'))
+variant_multi('t-reactivex-adapter-notifies-through-a-forwarding-helper', ['C20', 'C16'], [
+    ('rsocket/reactivex/reactivex_handler_adapter.py',
+     "    async def on_setup(self, data_encoding: bytes, metadata_encoding: bytes, payload: Payload):\n        await self.delegate.on_setup(data_encoding, metadata_encoding, payload)\n",
+     "    async def _notify(self, callback, *args):\n        await callback(*args)\n\n    async def on_setup(self, data_encoding: bytes, metadata_encoding: bytes, payload: Payload):\n        await self._notify(self.delegate.on_setup, data_encoding, metadata_encoding, payload)\n")],
+    kind='twin')
+
+# C02.j decoders reject no field value
+variant('b-lease-parser-rejects-a-lease-that-grants-nothing', ['C02', 'C14'], 'rsocket/frame.py',
+        "        self.number_of_requests = number_of_requests & MASK_31_BITS\n",
+        "        self.number_of_requests = number_of_requests & MASK_31_BITS\n        if self.time_to_live == 0 or self.number_of_requests == 0:\n            raise ParseError('Invalid lease')\n",
+        ('C02.j', 'LeaseFrame.parse'))
+variant('t-lease-parser-checks-the-buffer-length', ['C02', 'C14', 'C12'], 'rsocket/frame.py',
+        "        time_to_live, number_of_requests = struct.unpack_from('>II', buffer, offset)\n",
+        "        if len(buffer) < offset + 8:\n            raise ParseError('Lease frame too short')\n        time_to_live, number_of_requests = struct.unpack_from('>II', buffer, offset)\n",
+        kind='twin')
+
+# C06.a every credit counts, whatever its value
+variant('b-responder-drops-a-request-n-of-the-maximum', ['C06'], H + 'request_stream_responder.py',
+        "        elif isinstance(frame, RequestNFrame):\n            self.subscriber.subscription.request(frame.request_n)\n",
+        "        elif isinstance(frame, RequestNFrame):\n            if frame.request_n in range(1, MAX_REQUEST_N):\n                self.subscriber.subscription.request(frame.request_n)\n",
+        ('C06.a', 'RequestStreamResponder.frame_received/RequestNFrame'))
+
+# C12.p / C11.q the exception hierarchy agrees with the receive loop's branches
+variant('b-fragment-type-mismatch-becomes-a-transport-error', ['C12'], 'rsocket/exceptions.py',
+        "class RSocketFrameFragmentDifferentType(RSocketError):\n    pass\n\n\nclass RSocketTransportError(RSocketError):\n    pass\n",
+        "class RSocketTransportError(RSocketError):\n    pass\n\n\nclass RSocketFrameFragmentDifferentType(RSocketTransportError):\n    pass\n",
+        ('C12.p', 'RSocketFrameFragmentDifferentType'))
+variant_multi('b-connection-reset-raised-as-transport-closed', ['C11'], [
+    ('rsocket/helpers.py', "from rsocket.exceptions import RSocketTransportError\n",
+     "from rsocket.exceptions import RSocketTransportError, RSocketTransportClosed\n"),
+    ('rsocket/helpers.py', "    try:\n        yield\n    except Exception as exception:\n        raise RSocketTransportError from exception\n",
+     "    try:\n        yield\n    except ConnectionResetError as exception:\n        raise RSocketTransportClosed from exception\n    except Exception as exception:\n        raise RSocketTransportError from exception\n")],
+    ('C11.q', 'wrap_transport_exception'))
+variant('t-transport-closed-is-a-transport-error', ['C11', 'C12'], 'rsocket/exceptions.py',
+        "class RSocketTransportClosed(RSocketError):", "class RSocketTransportClosed(RSocketTransportError):", kind='twin')
+
+# C01.f (shared C08): the completing element carries the flag
+variant('b-completing-element-delivered-as-two-signals', ['C08', 'C01'], H + 'request_stream_requester.py',
+        "                self._subscriber.on_next(payload_from_frame(frame),\n                                         is_complete=frame.flags_complete)\n            elif frame.flags_complete:\n                self._subscriber.on_complete()\n\n            if frame.flags_complete:\n                self._finish_stream()",
+        "                self._subscriber.on_next(payload_from_frame(frame))\n\n            if frame.flags_complete:\n                self._subscriber.on_complete()\n                self._finish_stream()",
+        ('C01.f', 'RequestStreamRequester.frame_received/PayloadFrame[complete,next]'))
+
+# C17.j a transport's close() keeps the cancellation of its feeder task to itself
+variant('b-aiohttp-feeder-re-raises-its-cancellation', ['C17', 'C11'], 'rsocket/transports/aiohttp_websocket.py',
+        "            logger().debug('Asyncio task canceled: incoming_data_listener')\n        except Exception:\n            self._incoming_frame_queue.put_nowait(RSocketTransportError())\n        finally:\n            # the receiver",
+        "            logger().debug('Asyncio task canceled: incoming_data_listener')\n            raise\n        except Exception:\n            self._incoming_frame_queue.put_nowait(RSocketTransportError())\n        finally:\n            # the receiver",
+        ('C17.j', 'TransportAioHttpClient.close'))
+variant_multi('t-aiohttp-feeder-re-raises-and-close-contains-it', ['C17', 'C11'], [
+    ('rsocket/transports/aiohttp_websocket.py',
+     "            logger().debug('Asyncio task canceled: incoming_data_listener')\n        except Exception:\n            self._incoming_frame_queue.put_nowait(RSocketTransportError())\n        finally:\n            # the receiver",
+     "            logger().debug('Asyncio task canceled: incoming_data_listener')\n            raise\n        except Exception:\n            self._incoming_frame_queue.put_nowait(RSocketTransportError())\n        finally:\n            # the receiver"),
+    ('rsocket/transports/aiohttp_websocket.py',
+     "        self._message_handler.cancel()\n        await self._message_handler\n\n\nclass TransportAioHttpWebsocket",
+     "        self._message_handler.cancel()\n        try:\n            await self._message_handler\n        except asyncio.CancelledError:\n            pass\n\n\nclass TransportAioHttpWebsocket")],
+    kind='twin')
+
+# C09.a shared into C10: cancel() always cancels
+variant('b-channel-cancel-ignored-before-setup', ['C10', 'C09'], H + 'request_cahnnel_common.py',
+        "    def cancel(self):\n        self.send_cancel()\n        self.mark_completed_and_finish(received=True)",
+        "    def cancel(self):\n        if self.subscriber is None:\n            return\n        self.send_cancel()\n        self.mark_completed_and_finish(received=True)",
+        ('C09.a', 'RequestChannelRequester.cancel'))
+
+# C08.l (F26, fixed ade6b24) an ended request-stream is silent
+variant('b-orig-f26-request-n-written-after-the-end', ['C08'], H + 'request_stream_requester.py',
+        "    def request(self, n: int):\n        if self._terminated:\n            return\n\n        self.send_request_n(n)\n",
+        "    def request(self, n: int):\n        self.send_request_n(n)\n", ('C08.l', 'request() and cancel() after it'))
+variant('b-requester-notes-the-end-after-telling-the-subscriber', ['C08'], H + 'request_stream_requester.py',
+        "            if frame.flags_complete:\n                self._terminated = True  # before the subscriber is told: it may ask for more in on_next\n\n            if frame.flags_next:",
+        "            if frame.flags_next:", ('C08.l', 'PayloadFrame[complete'),
+        note='the flag is then set nowhere on the PAYLOAD paths')
+variant_multi('b-requester-notes-the-end-when-it-releases-the-stream', ['C08'], [
+    (H + 'request_stream_requester.py',
+     "            if frame.flags_complete:\n                self._terminated = True  # before the subscriber is told: it may ask for more in on_next\n\n            if frame.flags_next:",
+     "            if frame.flags_next:"),
+    (H + 'request_stream_requester.py',
+     "            if frame.flags_complete:\n                self._finish_stream()\n        elif isinstance(frame, ErrorFrame):",
+     "            if frame.flags_complete:\n                self._terminated = True\n                self._finish_stream()\n        elif isinstance(frame, ErrorFrame):")],
+    ('C08.l', 'PayloadFrame[complete'))
+variant('t-requester-end-flag-renamed', ['C08', 'C07', 'C09', 'C10', 'C13', 'C01'], H + 'request_stream_requester.py',
+        "_terminated", "_ended", kind='twin', count=6)
